@@ -10,11 +10,12 @@
     does not return ADDRXLAT_OK.  [observe] keeps what a caller sees: the status
     and, on success, the resulting full address.
 
-    Not covered by a refinement theorem (tie only): PTE_PPC64_LINUX_RPN30 —
-    there is no architectural spec for the Linux-specific hugepd layout here. *)
+    PTE_PPC64_LINUX_RPN30 is a Linux software layout, not an architecture: its
+    theorem is [_partial] (memories in which no huge-page directory names a page
+    size below the base page size). *)
 From Coq Require Import NArith ZArith List Bool.
 From KdV Require Import Base.Wrap64 Xlat.Step Xlat.ArchSpec Xlat.WalkProofs
-  Xlat.FmtX86 Xlat.FmtA64 Xlat.FmtRiscvPfn Xlat.FmtS390Arm Xlat.MethProofs Xlat.C02Main.
+  Xlat.FmtX86 Xlat.FmtA64 Xlat.FmtRiscvPfn Xlat.FmtS390Arm Xlat.FmtPpc64 Xlat.MethProofs Xlat.C02Main.
 Import ListNotations.
 Local Open Scope N_scope.
 
@@ -139,7 +140,23 @@ Theorem C02_pfn64_refines_arch : forall readmem tgt mask pf va ras root fuel,
 Proof. exact pfn64_refines_arch. Qed.
 Print Assumptions C02_pfn64_refines_arch.
 
-(** all of the above in one statement *)
+(** Linux ppc64, 64K base pages (RPN shift 30): huge PTEs, huge-page directories
+    and table pointers as laid out by the kernel headers.  [_partial]: the
+    statement is restricted to memories in which every cell shaped like a
+    huge-page directory entry names a page size >= the base page size
+    ([ppc64_mem_ok]; Linux never creates others, and for them the library's
+    index/offset split and the layout's disagree on what they would mean). *)
+Theorem C02_ppc64_refines_linux_partial : forall readmem tgt mask pf va ras root fuel,
+  pte_format pf = PTE_PPC64_LINUX_RPN30 -> fieldsz pf = [16;12;12;4] ->
+  ppc64_mem_ok readmem mask 16 ->
+  (forall a x, readmem a x <> RdErr OK) -> va < 2^64 ->
+  (length (fieldsz pf) <= fuel)%nat ->
+  observe (addrxlat_walk readmem {| m_kind := KPgt ras root mask pf; m_target := tgt |} fuel (init_step va))
+  = arch_walk readmem af_ppc64_rpn30 tgt mask (fieldsz pf) va ras root.
+Proof. exact ppc64_refines_linux. Qed.
+Print Assumptions C02_ppc64_refines_linux_partial.
+
+(** all of the architectural formats above in one statement *)
 Theorem C02_pgt_refines_arch : forall readmem tgt mask pf va ras root fuel af,
   arch_of (pte_format pf) = Some af -> arch_form (pte_format pf) (fieldsz pf) ->
   (forall a x, readmem a x <> RdErr OK) -> va < 2^64 ->
@@ -234,6 +251,30 @@ Definition ex_mem2 (a : aspace) (x : N) : rdres :=
     RdErr NODATA
   | _ => RdErr NODATA
   end.
+(** Linux ppc64: a 16M huge page found through a huge-page directory at the PMD level *)
+Definition ex_mem3 (a : aspace) (x : N) : rdres :=
+  match a with
+  | KPHYSADDR => if x =? 0x100 + 8 * 1 then RdOk (0xc000000000010000) else RdErr NODATA
+  | KVADDR =>
+    if x =? 0xc000000000010000 + 8 * 2 then RdOk (0x4000000000020000 + 8 * 4) else  (* hugepd, 16M *)
+    if x =? 0xc000000000020000 + 8 * 3 then RdOk (0x5000 * 2^30 + 1) else RdErr NODATA
+  | _ => RdErr NODATA
+  end.
+Example C02_nonvacuous_ppc64 :
+  ppc64_mem_ok ex_mem3 0 16 /\
+  observe (addrxlat_walk ex_mem3
+     {| m_kind := KPgt KPHYSADDR 0x100 0 {| pte_format := PTE_PPC64_LINUX_RPN30; fieldsz := [16;12;12;4] |};
+        m_target := MACHPHYSADDR |} 4 (init_step (1 * 2^40 + 2 * 2^28 + 3 * 2^24 + 0x123456)))
+  = (OK, Some (MACHPHYSADDR, 0x50000000 + 0x123456)).
+Proof.
+  split; [|vm_compute; reflexivity].
+  intros a x v H. unfold ex_mem3 in H.
+  destruct a; try discriminate;
+  repeat match type of H with
+  | (if ?c then _ else _) = _ => destruct c; [injection H as <-; vm_compute; intros; (left; reflexivity) || (right; discriminate)|]
+  end; discriminate.
+Qed.
+
 Example C02_nonvacuous_lpa_s390x :
   observe (addrxlat_walk ex_mem2
      {| m_kind := KPgt MACHPHYSADDR 0 0 {| pte_format := PTE_AARCH64_LPA; fieldsz := [16;13;13;10] |};
